@@ -44,6 +44,10 @@ structure St where
   /-- API version the stored references carry (all references are rewritten together, with
   the version the composition currently emits) -/
   refsVer : String := "v1"
+  /-- whether the function composer's field manager has server-side applied the references
+  before: a first apply by a new manager is recorded by the API server (resourceVersion
+  bump) even when no field value changes -/
+  xrApplied : Bool := true
   /-- ghost: objects controlled by someone else, recorded when the history starts; no API
   call reads or writes this field (used to state "foreign objects are left exactly as they were") -/
   foreign0 : List CObj := []
@@ -117,8 +121,8 @@ def exec (s : St) : Req → St × Resp
       else ({ s with objs := removeObj s.objs k n }, .ok)
     | none => (s, .notFound)
   | .patchRefs ver refs =>
-    if refs = s.refs ∧ (refs = [] ∨ ver = s.refsVer) then (s, .ok)
-    else ({ s with refs := refs, refsVer := ver, xrRv := s.xrRv + 1 }, .ok)
+    if refs = s.refs ∧ (refs = [] ∨ ver = s.refsVer) ∧ s.xrApplied = true then (s, .ok)
+    else ({ s with refs := refs, refsVer := ver, xrRv := s.xrRv + 1, xrApplied := true }, .ok)
   | .updateXR rv ver refs =>
     if rv ≠ s.xrRv then (s, .conflict)
     else if refs = s.refs ∧ (refs = [] ∨ ver = s.refsVer) then (s, .okRv s.xrRv)
